@@ -361,10 +361,29 @@ def eval_case(desc):
         return f(*w['uh'], *w['vh'], w)
     # the functional gets the parameters in their normalised kinds: field, scalar, field
     fields_u = {'p': ub.interpolate(pvec), 's': sc, 'a': arr}
+    cs0 = _checksum(uh, vh, fields_u['p'])
     J = Functional(F, dtype=dtype).assemble(ub, uh=uh, vh=vh, **dict(fields_u))
     lhs = v @ (A @ u)
     scale = float(np.abs(v) @ (Aabs @ np.abs(u))) + 1e-300
     out = [('vAu=J', abs(lhs - J), scale)]
+    if cplx:
+        # a Functional created WITHOUT dtype= must not lose the imaginary part of a complex integrand
+        Jn = Functional(F).assemble(ub, uh=uh, vh=vh, **dict(fields_u))
+        out.append(('functional-complex-without-dtype', abs(complex(Jn) - complex(J)), scale))
+    # scaling the integrand by a power of two scales every stored entry exactly (no absolute thresholds anywhere)
+    sc2 = 2.0 ** -int(rng.integers(40, 70))
+    As = BilinearForm(lambda *a: sc2 * f(*a), dtype=dtype, nthreads=nth).assemble(ub, vb, **dict(raw))
+    dA = As.toarray() - sc2 * A.toarray()
+    out.append(('scale-invariance', float(np.abs(dA).max(initial=0.0)) / sc2, 1e-300 + 1e-6 * float(np.abs(A.toarray()).max(initial=0.0))))
+    # pre-interpolated fields are inputs: a functional that returns its input unchanged must not modify it, and using the
+    # field again gives the same value
+    f0 = uh[0]
+    if np.array(f0).ndim == 2:
+        before = np.array(f0).copy()
+        J1 = Functional(lambda w: w['g'], dtype=dtype).assemble(ub, g=f0)
+        J2 = Functional(lambda w: w['g'], dtype=dtype).assemble(ub, g=f0)
+        same = np.array_equal(np.array(f0), before)
+        out.append(('operand-reuse', (0.0 if same else 1.0) + abs(complex(J1) - complex(J2)), 0.0 if not same else abs(complex(J1)) + 1e-300))
     info = {'N': (int(ub.N), int(vb.N)), 'Nbfun': (int(ub.Nbfun), int(vb.Nbfun)), 'nelems': int(ub.nelems),
             'terms': terms, 'shape': list(A.shape)}
     if A.shape != (vb.N, ub.N):
@@ -411,7 +430,21 @@ def eval_case(desc):
         sv = np.asarray(Aabs @ np.abs(u)).ravel()
         sv = sv + 1e-3 * (float(sv.max(initial=0.0)) + 1e-300)       # per-row scale, floored relative to the largest row
         out.append(('Au=b_u', float(np.max(np.abs(A @ u - bu) / sv, initial=0.0)), 1.0))
+    if _checksum(uh, vh, fields_u['p']) != cs0:
+        out.append(('operands-mutated', 1.0, 0.0))
     return out, info
+
+
+def _checksum(*fields):
+    import hashlib
+    h = hashlib.sha1()
+    for f in fields:
+        for g in (f if isinstance(f, tuple) else (f,)):
+            for a in g.astuple:
+                if a is not None:
+                    h.update(np.ascontiguousarray(a).tobytes())
+    return h.hexdigest()
+
 
 
 def trilinear_integrand(terms, nu, nv, cplx=False, absolute=False):
@@ -486,7 +519,7 @@ def run(ctx):
     logging.getLogger('skfem').setLevel(logging.ERROR)
     warnings.simplefilter('ignore')
     rng = ctx.rng
-    n = ctx.n(400, 5000)
+    n = ctx.n(280, 5000)
     worst = 0.0
     stats = {}
     ntri = 0
